@@ -359,6 +359,10 @@ func checkC03(w *World, r *Run) {
 		})
 		r.Check(bad == "" && inHook, ruleCache, "cachePartStore."+m+": cache follows the commit", fn.Pos(), "no cache.Set before commit; the entry is set/removed in the OnAfterCommit hook", "with a transaction the cache is filled before commit ("+bad+") or is not invalidated after it: a rolled-back write is served, or a deleted/replaced part stays cached")
 	}
+	// the object cache: a failed write must not leave the rejected bytes cached
+	if c := c20Context(w, r); c != nil {
+		checkCacheEarlyFill(w, r, c)
+	}
 	r.NotCovered("fault injection at every step; remote stores' behaviour on failure; stores that ignore the transaction by design (gdrive, dropbox, onedrive: documented as to be wrapped in the outbox store); correctness of each rollback hook's file operations")
 }
 
@@ -467,6 +471,33 @@ func checkC10(w *World, r *Run) {
 		r.Check(known[s], ruleRec, "filesystemPartStore: files named *"+s+"* are recovered at Start", start.Pos(), "referenced by a function reachable from Start", "files carrying "+s+" are created before the commit but nothing reachable from Start recognises them: after a crash between the pre-commit hooks and the end of the transaction a part that is still referenced stays renamed away (object unreadable) and leftovers accumulate")
 	}
 	r.Check(restores && removes, ruleRec, "filesystemPartStore: recovery restores and removes", start.Pos(), "os.Rename and os.Remove reachable from Start", "the start-up path never renames a backup back or removes a leftover")
+	// the restore decision looks at the part's final name: Lstat(X) is not-exist → Rename(backup, X)
+	for fn := range reach {
+		allInstrs(fn, false, func(_ *ssa.Function, ins ssa.Instruction) {
+			c, ok := ins.(*ssa.Call)
+			if !ok {
+				return
+			}
+			f := calleeObj(c)
+			if f == nil || f.Pkg() == nil || f.Pkg().Path() != "os" || f.Name() != "Rename" {
+				return
+			}
+			// guarded by errors.Is(err, fs.ErrNotExist) of a stat of the rename destination
+			okStat := false
+			for _, fact := range factsAt(c.Block()) {
+				cc, isCall := fact.Val.(*ssa.Call)
+				if !isCall || fact.Kind != IsTrue || !isCallNamed(cc, "Is") {
+					continue
+				}
+				if st, _ := extractOf(cc.Call.Args[0]); st != nil && isCallNamed(st, "Lstat", "Stat") {
+					if sameValue(st.Call.Args[0], c.Call.Args[1]) {
+						okStat = true
+					}
+				}
+			}
+			r.Check(okStat, ruleRec, "filesystemPartStore recovery: a backup is restored when the part's own file is missing", posOf(c), "Lstat(part path) not-exist → Rename(backup, part path)", "the restore is not decided by the absence of the part's final file (the stat looks at another path): backups of uncommitted deletes are removed instead of restored and the still-referenced part is lost")
+		})
+	}
 
 	// ordering of destructive steps
 	for _, m := range []string{"PutPart", "DeletePart"} {
